@@ -1138,4 +1138,83 @@ def xy_exchange(ctx):
     return res
 
 
-RULES = [xy_exchange, no_stale, field_wiring, config_table, aim, trace_entry, in_disk, registry]
+def launch_guards(ctx):
+    """(a) the launch arrays are float whatever the dtype of the pupil
+    coordinates: np.full_like(Px, value) inherits Px's dtype, so integer
+    pupil coordinates would truncate EPL, the launch plane and the object
+    point; (b) configurations with no finite launch (object at infinity with
+    a telecentric object space or an objectNA aperture: infinite pupil
+    diameter) raise instead of producing nan / inf rays."""
+    P = ctx.P
+    res = Result('LAUNCH-GUARDS', 'launch arrays are float for integer pupil '
+                 'coordinates; impossible infinite-object configurations '
+                 'raise')
+    c = _rg(P)
+    gen = c.methods['generate_rays']
+    res.saw(gen)
+    conv = set()
+    for st in gen.node.body:
+        if isinstance(st, ast.Assign) and isinstance(st.targets[0], ast.Name) \
+                and isinstance(st.value, ast.Call) and \
+                unparse(st.value.func) in ('np.asarray', 'np.array',
+                                           'np.atleast_1d') and \
+                st.value.args and unparse(st.value.args[0]) == \
+                st.targets[0].id and any(
+                    k.arg == 'dtype' and unparse(k.value) in (
+                        'float', 'np.float64') for k in st.value.keywords):
+            conv.add(st.targets[0].id)
+    n = 0
+    for m in c.methods.values():
+        for call in ast.walk(m.node):
+            if isinstance(call, ast.Call) and unparse(call.func) in (
+                    'np.full_like', 'np.zeros_like', 'np.ones_like') and \
+                    call.args and isinstance(call.args[0], ast.Name):
+                n += 1
+                tmpl = call.args[0].id
+                typed = any(k.arg == 'dtype' and unparse(k.value) in (
+                    'float', 'np.float64') for k in call.keywords)
+                if typed or tmpl in conv or tmpl not in m.params:
+                    continue
+                res.saw(m)
+                res.fail(ctx.finding(
+                    'LAUNCH-GUARDS', m, call,
+                    f'{unparse(call)[:60]} takes its dtype from the caller\'s '
+                    f'{tmpl}: integer pupil coordinates (generate_rays(0, 1, '
+                    f'0, 1, w), user distributions with int arrays) truncate '
+                    f'the value to a whole number (EPL 12.74 -> 12, object '
+                    f'height 2.5 -> 2.0, a 10 deg field becomes 10.31 deg)',
+                    construct=f'{m.name}: {unparse(call.func)} of {tmpl}'))
+    res.ok(f'{n} *_like templates examined; converted parameters: '
+           f'{sorted(conv)}')
+    org = c.methods.get('_get_ray_origins')
+    if org is None:
+        raise AnalysisError('_get_ray_origins not found')
+    res.saw(org)
+    inf_arm = None
+    for st in ast.walk(org.node):
+        if isinstance(st, ast.If) and 'is_infinite' in unparse(st.test):
+            inf_arm = st.body
+            break
+    if inf_arm is None:
+        raise AnalysisError('_get_ray_origins: infinite-object arm not found')
+    raises = {}
+    for st in inf_arm:
+        if isinstance(st, ast.If) and any(isinstance(b, ast.Raise)
+                                          for b in st.body):
+            raises[unparse(st.test)] = st
+    need = {'telecentric': any('telecentric' in t for t in raises),
+            'objectNA': any("'objectNA'" in t for t in raises)}
+    for what, ok in need.items():
+        if ok:
+            res.ok(f'object at infinity with {what}: raises')
+        else:
+            res.fail(ctx.finding(
+                'LAUNCH-GUARDS', org, org.node,
+                f'an object at infinity with {what} has no finite launch '
+                f'(infinite entrance pupil diameter): the rays come out nan '
+                f'/ -inf without an error',
+                construct=f'infinite object with {what} not rejected'))
+    return res
+
+
+RULES = [launch_guards, xy_exchange, no_stale, field_wiring, config_table, aim, trace_entry, in_disk, registry]
